@@ -271,8 +271,8 @@ func main() {
 			if hasFailingSub(res.h, sig, failSig) {
 				continue
 			}
-			if f.at == "entry" && !res.h.Seeded { // before the first operation: the history is irrelevant
-				r.Report(f.class+"|at=entry", f.what, f.replay)
+			if f.at == "entry" { // before the first operation: the history is irrelevant
+				r.Report(f.class+"|at=entry|init="+map[bool]string{false: "zero", true: "seeded"}[res.h.Seeded], f.what, f.replay)
 				continue
 			}
 			r.Report(f.class+"|at="+f.at+"|hist="+res.h.Pattern(), f.what, f.replay)
